@@ -141,13 +141,13 @@ def run(ctx, res):
     cases = [gen_fn_case(ctx.rng) for _ in range(ctx.scale(150, 3000))]
     # directed: one execution resource in two positions of the same rule -- a list result gives every combination per row, a scalar result
     # is the same value in both positions (each position escapes / encodes it in its own way)
-    for _ in range(ctx.scale(8, 60)):
-        rows = [[str(i + 1), ctx.rng.choice(['a,b', 'a,b,c', "O'Neil", 'say "hi"', 'x y', 'p,q']), 'z'] for i in range(ctx.rng.choice([1, 2, 3]))]
-        if ctx.rng.random() < 0.5:
+    for rep_ in range(ctx.scale(12, 60)):
+        rows = [[str(i + 1), ctx.rng.choice(['a,b', 'a,b,c', "O'Neil", 'say "hi"', 'x y ', 'p,q']), 'z'] for i in range(ctx.rng.choice([2, 3]))]
+        if rep_ % 2 == 0:
             execs = [{'id': EX + 'exec/S1', 'fun': MK + 'string_split_explode', 'inputs': [[GREL + 'valueParam', 'ref', 'c1'], [GREL + 'param_string_sep', 'const', ',']]}]
         else:
             execs = [{'id': EX + 'exec/S1', 'fun': GREL + 'toUpperCase', 'inputs': [[GREL + 'valueParam', 'ref', 'c1']]}]
-        pair = ctx.rng.choice(['subject+object', 'object+graph', 'object+object'])
+        pair = ['subject+object', 'object+graph', 'object+object'][(rep_ // 2) % 3]
         obj = {'m': tm('exec', EX + 'exec/S1', 'iri', ctx.rng.choice(['', 'lit'])), 'lang': None, 'dt': None, 'joins': []}
         subj = tm('exec', EX + 'exec/S1', 'iri', 'bnode') if pair == 'subject+object' else tm('templ', EX + 'r/{id}')
         poms = [{'preds': [tm('const', EX + 'p/a')], 'objs': [obj], 'graphs': [tm('exec', EX + 'exec/S1')] if pair == 'object+graph' else []}]
@@ -157,11 +157,11 @@ def run(ctx, res):
                       'sources': [{'key': 'S0', 'kind': 'csv', 'cols': ['id', 'c1', 'c2'], 'rows': rows}],
                       'doc': [{'id': EX + 'tm/T', 'src': 'S0', 'nonasserted': False, 'subj': subj, 'sjoins': [], 'classes': [], 'sgraphs': [], 'poms': poms}], 'execs': execs})
     # directed: a function-valued term map in a rule whose object is a referencing object map with ONE join condition; child rows share join keys
-    for _ in range(ctx.scale(8, 60)):
+    for rep_j in range(ctx.scale(9, 60)):
         keys = ['a', 'b']
         crows = [[str(i + 1), ctx.rng.choice(keys), ctx.rng.choice(['x', 'Y', 'zed', 'a,b'])] for i in range(ctx.rng.choice([3, 4, 5]))]
         prows = [[k, 'n' + k] for k in keys]
-        where = ctx.rng.choice(['predicate', 'graph', 'subject'])
+        where = ['predicate', 'graph', 'subject'][rep_j % 3]
         execs = [{'id': EX + 'exec/J1', 'fun': ctx.rng.choice([GREL + 'toUpperCase', MK + 'string_split_explode']), 'inputs': [[GREL + 'valueParam', 'ref', 'c1']]}]
         if execs[0]['fun'].endswith('explode'):
             execs[0]['inputs'].append([GREL + 'param_string_sep', 'const', ','])
@@ -222,10 +222,10 @@ def run(ctx, res):
     # -- the built-in uuid and a key generator -- give as many different terms as there are rows
     EXN = mapcase.EX
     BIF = 'https://github.com/morph-kgc/morph-kgc/function/built-in.ttl#'
-    for rep in range(ctx.scale(6, 40)):
+    for rep in range(ctx.scale(9, 45)):
         n = ctx.rng.choice([2, 3, 5, 8])
-        which = ctx.rng.choice(['uuid', 'tick', 'nested'])
-        pos = ctx.rng.choice(['object', 'object-iri', 'subject'])
+        which = ['uuid', 'tick', 'nested'][rep % 3]                      # every function and every position in turn
+        pos = ['object', 'object-iri', 'subject'][(rep // 3) % 3]
         if which == 'uuid':
             execs = [{'id': EXN + 'ex/E0', 'fun': BIF + 'uuid', 'inputs': []}]
         elif which == 'tick':
